@@ -8,3 +8,12 @@ package optimizer
 //@ func optimizer.init
 //@   property C02 C15
 //@   ensures[basic-types] integerType == rtype("int") && stringType == rtype("string")
+
+// a..b with literal bounds is replaced by the slice makeRange would build at run time (C02, C18)
+//@ func optimizer.constRange.Exit
+//@   property C02 C18
+//@   mode panics
+//@   assigns *
+//@   loop 0 modifies obj(value)
+//@   loop 0 invariant[bounds] rangeindex >= -1 && rangeindex < len(value)
+//@   loop 0 invariant[content] forall(k, 0, rangeindex+1, value[k] == min.Value + k)
